@@ -31,7 +31,7 @@ MECHANISMS = ["jaxley.modules.base:Module._reformat_index", "jaxley.modules.base
 MECHANISMS_REQUIRED = ["jaxley.modules.base:Module._at_nodes", "jaxley.modules.base:View._set_inds_in_view",
                        "jaxley.modules.base:Module._update_local_indices"]
 REQUIRED = {"quick": {"selection": 1000, "local_ranks": 600, "lazy_iter": 300, "write_confinement": 300},
-            "thorough": {"selection": 5000, "local_ranks": 3000, "lazy_iter": 1500, "write_confinement": 1500}}
+            "thorough": {"selection": 19145, "local_ranks": 11942, "lazy_iter": 11102, "write_confinement": 7802}}
 
 
 def make_world(rng, kind, st=None, nsyn=None):
